@@ -25,7 +25,7 @@ RULE = ("all (n+1)^n functional graphs on n=1..5 resource ids x {plain reference
 ASSUMPTIONS = [
     "gen/arscgen.py writes well-formed tables (validated against shipped tables, see C28)",
     "termination is decided by an interpreter-event budget (sys.monitoring), never by wall clock; the budget is >= 50x the "
-    "cost of the longest acyclic chain in the space; during a query the recursion limit is 200 frames above the harness "
+    "cost of the longest acyclic chain in the space; during a query the recursion limit is 120 frames above the harness "
     "(>= 4x what the longest acyclic chain needs, checked in finalize)",
     "only the set of concrete values is judged (multiplicity / configuration labels belong to C28); APK.get_app_name / "
     "get_app_icon on top of the resolver are not driven here",
@@ -43,7 +43,7 @@ MANIFEST = {
 }
 
 BUDGET = 400000
-FRAMES = 200            # Python frames a query may stack on top of the harness (longest legal chain: measured < FRAMES / 4)
+FRAMES = 120            # Python frames a query may stack on top of the harness (longest legal chain needs 24: measured, and re-checked in finalize with FRAMES // 4)
 NSHARDS = 32
 KINDS = ["plain", "complex-back-ref"]
 MAXN = 5
@@ -115,7 +115,7 @@ def judge_query(a, ref, rid, budget=BUDGET, frames=FRAMES):
     """Returns (message or None, events, outcome tag).
     The interpreter's recursion limit is lowered to `frames` above the harness while the query runs: a resolver that
     recurses once per reference hop needs ~4 frames per hop (<= 5 hops here), so a legal resolution cannot notice, while a
-    runaway recursion is cut after 200 instead of 1000 frames (unwinding 1000 frames ~60 000 times is what made this check
+    runaway recursion is cut after 120 instead of 1000 frames (unwinding 1000 frames ~60 000 times is what made this check
     take tens of minutes on a tree without cycle detection)."""
     import sys
     from mc.budget import run_with_budget
